@@ -37,7 +37,16 @@ if __name__ == "__main__":
     else:
         from dsim.cli import main
 
-        rc = main()
+        try:
+            rc = main()
+        except SystemExit as e:
+            rc = e.code if isinstance(e.code, int) else 2
+        except BaseException:  # noqa: BLE001 - a crash of the machinery is never exit 1 (= violation)
+            import traceback
+
+            traceback.print_exc()
+            print("HARNESS-ERROR the check itself crashed (see the traceback above): no verdict", file=sys.stderr)
+            rc = 2
     sys.stdout.flush()
     sys.stderr.flush()
     os._exit(rc if isinstance(rc, int) else 0)
